@@ -92,6 +92,9 @@ class _RList(_S, list):
                 return r
         raise KeyError(rid)
 
+    def list_attr(self, name):
+        return [getattr(r, name) for r in self]
+
     def get_by_any(self, what):
         what = what if isinstance(what, (list, tuple)) else [what]
         return [self.get_by_id(x) if isinstance(x, str) else x for x in what]
@@ -219,6 +222,50 @@ def check_get_solution(ctx, rule: str) -> None:
                         elif v != shadow[lab]:
                             problems.append(f"{what}: the shadow price labelled {lab} is {v:g}; the solver holds {shadow[lab]:g}")
                             break
+    # the same model object asked twice, its reaction list edited in between without changing its length (one reaction
+    # removed, another added; two reactions swapped): the labels follow the list as it is at the time of the call
+    if not problems:
+        n += 1
+        rx2 = _RList(_Obj(id=r, reverse_id=r + "_reverse") for r in rids)
+        solver = _Obj(status="optimal", primal_values=dict(primal), reduced_costs=dict(duals), shadow_prices=dict(shadow), is_integer=False, objective=_Obj(value=42.5))
+        model = _Obj(solver=solver, reactions=rx2, metabolites=mets)
+        stubs = {k: (lambda f_: (lambda it_, ev, c, a, kw: f_(*a, **kw)))(f) for k, f in ndmodel.NUMPY.items()}
+        stubs["numpy.empty"] = lambda it_, ev, c, a, kw: _empty(*a)
+        stubs["numpy.zeros"] = lambda it_, ev, c, a, kw: _empty(*a)
+        stubs["numpy.full"] = lambda it_, ev, c, a, kw: _Arr([a[1]] * int(a[0])) if int(a[0]) else _empty(0)
+        stubs["numpy.isin"] = lambda it_, ev, c, a, kw: _Index(a[0].tolist() if isinstance(a[0], NA) else a[0]).isin(a[1].tolist() if isinstance(a[1], NA) else a[1])
+        stubs["numpy.array"] = lambda it_, ev, c, a, kw: _Arr(list(a[0])) if len(list(a[0])) else _empty(0)
+        stubs["pandas.Series"] = lambda it_, ev, c, a, kw: _Series(*a, **kw)
+        stubs["pandas.Index"] = lambda it_, ev, c, a, kw: _Index(a[0])
+        stubs["cobra.core.solution.Solution"] = lambda it_, ev, c, a, kw: _Obj(**kw) if not a else _Obj(**dict(zip(("objective_value", "status", "fluxes", "reduced_costs", "shadow_prices"), a), **kw))
+        stubs["cobra.util.solver.check_solver_status"] = lambda it_, ev, c, a, kw: None
+        it = Interp(prog, (_S, NA, ndmodel.NScalar), ["cobra.core.solution.get_solution"] + [f.qualname for f in prog.all_funcs() if f.qualname.startswith("cobra.core.solution.") and f.parent is None and f.cls is None], stubs, globals_={"len": len, "float": float})
+        what = "get_solution on a model whose reaction list was edited (two reactions swapped, one replaced; same length) after an earlier get_solution"
+        try:
+            it.call(fn, [model], {})
+            a_, b_ = rx2[1], rx2[3]
+            list.__setitem__(rx2, 1, b_)
+            list.__setitem__(rx2, 3, a_)
+            newr = _Obj(id="R9", reverse_id="R9_reverse")
+            list.__setitem__(rx2, 0, newr)
+            solver.primal_values.update({"R9": 99.5, "R9_reverse": 0.25})
+            solver.reduced_costs.update({"R9": 0.5, "R9_reverse": -0.25})
+            sol = it.call(fn, [model], {})
+            fl = getattr(sol, "fluxes", None)
+            if not isinstance(fl, _Series) or sorted(fl.index) != sorted(r.id for r in rx2):
+                problems.append(f"{what}: the fluxes are labelled {getattr(fl, 'index', None)}, the model lists {[r.id for r in rx2]}")
+            else:
+                for lab, v in zip(fl.index, fl.values):
+                    w = solver.primal_values[lab] - solver.primal_values[lab + "_reverse"]
+                    if v != w:
+                        problems.append(f"{what}: the flux labelled {lab} is {v:g}, forward - reverse of {lab} in the solver is {w:g}: the labels are those of an earlier call")
+                        break
+        except EvalRaise as exc:
+            problems.append(f"{what} raises {exc.exc_type}")
+        except Unknown as exc:
+            raise AnalysisError(f"C04.labels: {what} cannot be evaluated: {exc}")
+        except (ndmodel.Unsupported, TypeError, AttributeError) as exc:
+            raise AnalysisError(f"C04.labels: {what} leaves the array / series model: {exc}")
     if problems:
         ctx.bad(rule, fn, "solution labels", "; ".join(list(dict.fromkeys(problems))[:2]))
     else:
